@@ -65,7 +65,7 @@ CONFIG = {
         "net/http between the built URL string and the recorded request is not modelled: requests are compared through URL.String() (identity on every URL the theorems cover); a base whose registry has an empty port ('reg:') is accepted by ParseReference but net/http strips the empty port from the request URL, so such bases are exercised for ParseReference only; literal &Repository{Reference: ...} values with an invalid base are outside the quantifier (the constructors NewRepository / NewRegistry+Repository validate: C20_new_repository_base_ok) and are compared with the model for ParseReference only",
         "out of scope: a descriptor whose Digest is not a valid digest (Fetch/Delete build the URL from desc.Digest unvalidated: compared with the model on URL-safe strings, not judged), mount from a source repository name that is not a valid repository (not judged), manifests with a subject (client-side referrers indexing sends further requests), the second and later pages of listings (their URL comes from the server's Link header), blob upload after the initial POST (Location comes from the server)",
     ],
-    "level_text": "Coq theorems for all strings and all sets of linked hash implementations, about a model that now includes the registry validator itself (net/url + netip of go1.26.8): parse = independent grammar (iff) with every component characterised (C20_tag_grammar, C20_repository_grammar, C20_digest_grammar, registry: C20_registry_regname_iff + C20_registry_bracket_iff = complete grammar of accepted registries modulo netip.ParseAddr, C20_registry_clean: no user-info / query / fragment / escape can hide in an accepted registry); format/parse round-trip for parsed references and for every Reference value that passes Validate (C20_validate_roundtrip); Repository.ParseReference characterised exactly (C20_repo_parse_iff_grammar) incl. agreement of the six forms and rejection of every other path (pre-fix code refuted); URL slot at full strength under RFC 3986 splitting with NO hypothesis about the registry left (C20_url_exact_go / _full, C20_op_requests_exact_paths_go); the query-carrying builders (referrers artifactType, blob mount: C20_url_referrers_at_exact, C20_url_mount_exact) and QueryEscape/ParseQuery round trips (C20_query_escape_roundtrip, C20_parse_query_encode) for all byte strings; every descriptor-driven operation (manifest/blob Fetch, Delete, Referrers, Mount, Push, Tags with setQueryParams paging) and Registry.Ping / Repositories: one request, documented method, exact slot, query decoding to exactly the documented parameters (C20_desc_op_requests_exact, C20_reg_op_requests_exact); every history of calls on a Repository stays in the base repository (C20_session_in_base), and so do oras.Tag / oras.TagN (content.go) for arbitrary source / destination strings (C20_oras_tag_in_base, C20_oras_tag_forms_agree); every Repository the constructors hand out has a valid base (C20_new_repository_base_ok, C20_registry_repository_base_ok). Tie: regexes, URL-builder literals, separators and the go-digest pin are regenerated from the Go source on every run (kinds regex, funcstrlits, gosumhash, godigest_algorithms; the assembled builders are proved equal to the closed forms: C20_generated_builders_agree), 54 anchors; exhaustive small-scope + random + mutation differential run of model vs implementation on 14 case kinds (P R V G F W U Q O D T N E A) in two link configurations with coverage floors, per-operation watchdog and request cap; independent oracle (hand recognisers, ground truth by construction, net/url's own parse of every URL / query)",
+    "level_text": "Coq theorems for all strings and all sets of linked hash implementations, about a model that now includes the registry validator itself (net/url + netip of go1.26.8): parse = independent grammar (iff) with every component characterised (C20_tag_grammar, C20_repository_grammar, C20_digest_grammar, registry: C20_registry_regname_iff + C20_registry_bracket_iff = complete grammar of accepted registries modulo netip.ParseAddr, C20_registry_clean: no user-info / query / fragment / escape can hide in an accepted registry); format/parse round-trip for parsed references and for every Reference value that passes Validate (C20_validate_roundtrip); Repository.ParseReference characterised exactly (C20_repo_parse_iff_grammar) incl. agreement of the six forms and rejection of every other path (pre-fix code refuted); URL slot at full strength under RFC 3986 splitting with NO hypothesis about the registry left (C20_url_exact_go / _full, C20_op_requests_exact_paths_go); the query-carrying builders (referrers artifactType, blob mount: C20_url_referrers_at_exact, C20_url_mount_exact) and QueryEscape/ParseQuery round trips (C20_query_escape_roundtrip, C20_parse_query_encode) for all byte strings; every descriptor-driven operation (manifest/blob Fetch, Delete, Referrers, Mount, Push, Tags with setQueryParams paging) and Registry.Ping / Repositories: one request, documented method, exact slot, query decoding to exactly the documented parameters (C20_desc_op_requests_exact, C20_reg_op_requests_exact); every history of calls on a Repository stays in the base repository (C20_session_in_base), and so do oras.Tag / oras.TagN (content.go) for arbitrary source / destination strings (C20_oras_tag_in_base, C20_oras_tag_forms_agree); every Repository the constructors hand out has a valid base (C20_new_repository_base_ok, C20_registry_repository_base_ok); end to end without any premise about registry or base: NewRepository(s0) for any accepted s0, then any history of calls resp. oras.Tag/TagN with arbitrary arguments stays in that repository (C20_new_repository_session_in_base, C20_new_repository_oras_tag_in_base; C20_desc_op_requests_exact_go, C20_reg_op_requests_exact_go, C20_url_referrers_at_exact_go). Tie: regexes, URL-builder literals, separators and the go-digest pin are regenerated from the Go source on every run (kinds regex, funcstrlits, gosumhash, godigest_algorithms; the assembled builders are proved equal to the closed forms: C20_generated_builders_agree), 54 anchors; exhaustive small-scope + random + mutation differential run of model vs implementation on 14 case kinds (P R V G F W U Q O D T N E A) in two link configurations with coverage floors, per-operation watchdog and request cap; independent oracle (hand recognisers, ground truth by construction, net/url's own parse of every URL / query)",
     "level_note": "correspondence only (hand model, no translator): net/url host parsing + netip.ParseAddr + QueryEscape (Model/NetURL.v, toolchain pinned), the control flow of go-digest's Digest.Validate (its table is translated; version and go.sum hash pinned), the request sequences of the operations (anchored). Oracle only (no theorem): error identity (errors.Is ErrInvalidReference). Operations are modelled for subject-less manifests in all three referrers-capability states, through the stores and the Repository wrappers; listings for their first page. Go regexp semantics = Base/Regex.v denotation",
     "technique": "machine-checked proof in Coq (regex derivative matcher proved correct; grammar equivalences; round-trips; RFC 3986 splitting of every built URL; induction over call histories) + translator-regenerated definitions (regexes, URL-builder literals, dependency pin) + model/implementation correspondence",
     "explanation": "theorems over all strings about the model of ParseReference / ValidateRegistry (net/url + netip) / String / Validate / Repository.ParseReference / all URL builders / reference- and descriptor-driven operations / constructors, with regexes and URL literals regenerated from the Go source; exhaustive small-scope + random differential run of model vs implementation in two link configurations; independent grammar / round-trip / net-url oracle",
